@@ -2,8 +2,7 @@
   C07 helper lemmas, part 3: on a buffer with the `Layout` of part 2 every reader stays inside the
   buffer and returns the tags / values of the layout (`Spec.valuesOf tags args`).
   The loop lemmas follow those of C01 (`Proofs/OscRead.lean`), generalised from the canonical
-  encoding to lax encodings (arbitrary padding bytes, unknown tags = tags without payload) and to
-  the repaired `arg_start` / `arg_size`.  Property theorems are in Props/C07.lean.
+  encoding to lax encodings (arbitrary padding bytes, unknown tags = tags without payload).  Property theorems are in Props/C07.lean.
 -/
 import RtoscModel.Proofs.ValidLayout
 import RtoscModel.Proofs.OscAccess
@@ -193,14 +192,13 @@ theorem argSize_lax {m : Bytes} {p : Nat} {t : UInt8} {a : Arg} {e R : Bytes}
   | str s =>
     obtain ⟨hr, ht⟩ := kind_str t hk
     obtain ⟨hs, pad, rfl, hpad⟩ := he
-    have hq : nulIdx (m.drop p) = some s.length := by
-      rw [hd]
-      have : (s ++ 0 :: pad) ++ R = s ++ 0 :: (pad ++ R) := by simp
-      rw [this]; exact nulIdx_append s _ hs
+    have hq : scanToNul m p = some (p + s.length) :=
+      scanToNul_of_drop (r := pad ++ R) (by rw [hd]; simp) hs
     have hl : (s ++ 0 :: pad).length = s.length + (4 - s.length % 4) := by
       simp only [List.length_append, List.length_cons]; omega
     rw [hl] at hsz ⊢
-    rcases ht with rfl | rfl <;> simp [argSize, hasReserved, hq, u32_id hsz]
+    have he : p + s.length - p = s.length := by omega
+    rcases ht with rfl | rfl <;> simp [argSize, hasReserved, hq, he, u32_id hsz]
   | blob d =>
     obtain ⟨hr, ht⟩ := kind_blob t hk
     obtain ⟨b0, b1, b2, b3, pad, rfl, hlen, hlt, hpad⟩ := he
@@ -262,9 +260,6 @@ theorem extract_lax {m : Bytes} {p : Nat} {t : UInt8} {a : Arg} {e R : Bytes}
     omega
 
 /-! ### `arg_off` and the iterator -/
-
-theorem offLoop_zero (m ts : Bytes) (pos : Nat) : offLoop m ts 0 pos = some pos := by
-  simp [offLoop]
 
 theorem offLoop_lax (m : Bytes) : ∀ {tags : Bytes} {args : List Arg} {A : Bytes} (idx pos : Nat) (R X : Bytes)
     (t : UInt8) (v : Val),
@@ -450,7 +445,7 @@ theorem readers_of_layout {bs s tags pad : Bytes} {j : Nat} {args : List Arg} {A
   -- first argument
   have hbase : argBase bs (s.length + 2 + j + 1) =
       some (s.length + 2 + j + 1 + tags.length + 1 + pad.length) := by
-    simp only [argBase, h3, nulIdx_append tags _ hnn]
+    simp only [argBase, scanToNul_of_drop h3 hnn]
     congr 1; omega
   obtain ⟨jb, ts', hj1, hj2, hj3, hj4, hj5, hj6, hj7⟩ := lead_lax (pad ++ A) hla hnn
   have hadv : advancePast bs (s.length + 2 + j + 1) = some (jb + (s.length + 2 + j + 1)) := by
